@@ -19,6 +19,12 @@ def _case(seed, i):
     kind = FS.KINDS[i % len(FS.KINDS)]
     s = core.run_seed(seed, "c12-fault", i)
     case = FS.make_case(core.stream(s, "case"), s, kind=kind)
+    if kind == "opt_inconsistent":
+        # stratified over the list, so that every size of difference gets its turn
+        j = i // len(FS.KINDS)
+        pool = FS.OPT_INCONSISTENT
+        if case["entry"] == "api-tok":
+            case["fault"]["changed"] = dict(pool[(j + 3 * seed) % len(pool)])
     if kind == "in_corrupt":
         # stratified: every block of the file and every corruption kind gets its turn
         j = i // len(FS.KINDS)
